@@ -231,6 +231,43 @@ Theorem C17_generated_done_is_model : forall V (fc : list ascii -> fc_result V) 
 Proof. exact g_done_is_model. Qed.
 Print Assumptions C17_generated_done_is_model.
 
+(* whole rows: the row readers built from the generated member functions (the loops of skip_comments / read_row_impl /
+   read_row_std_vector are transcribed by hand in CsvGenInst.v, every member call in them is the generated definition)
+   ARE the row readers of Csv.v, for every stream *)
+Theorem C17_generated_rows_are_model_rows : forall V (fc : list ascii -> fc_result V) (garbage : V) (sep : ascii), fc_bound fc ->
+  (forall n is, g_read_row_impl fc garbage sep n is = read_row_impl (parse_of fc) sep n is) /\
+  (forall is, g_read_row_std_vector fc garbage sep is = read_row_std_vector (parse_of fc) sep is).
+Proof. exact (fun V fc g sep HB => conj (generated_read_row_impl_is_model fc g sep HB) (generated_read_row_std_vector_is_model fc g sep HB)). Qed.
+Print Assumptions C17_generated_rows_are_model_rows.
+
+(* (G0) MAIN theorem (0) restated for the generated reader *)
+Theorem C17_generated_chunked_equals_spec64_vector :
+  forall (V : Type) (fc : list ascii -> fc_result V) (garbage : V) (sep : ascii) (numch : ascii -> bool),
+  fc_bound fc ->
+  (forall a c b, numch c = false -> parse_of fc (a ++ c :: b) = parse_of fc a) ->
+  numch sep = false -> numch plus = true ->
+  forall cs line t, row_wf cs line ->
+  match spec_row64 (parse_of fc) sep line with
+  | Some vs => g_read_row_std_vector fc garbage sep (gs (comment_block cs ++ line ++ nl :: t)) = (gs t, inr vs)
+  | None => exists e s', g_read_row_std_vector fc garbage sep (gs (comment_block cs ++ line ++ nl :: t)) = (s', inl e) /\ Tail s' t
+  end.
+Proof. exact generated_chunked_equals_spec64_vector. Qed.
+Print Assumptions C17_generated_chunked_equals_spec64_vector.
+
+Theorem C17_generated_chunked_equals_spec64_fixed :
+  forall (V : Type) (fc : list ascii -> fc_result V) (garbage : V) (sep : ascii) (numch : ascii -> bool),
+  fc_bound fc ->
+  (forall a c b, numch c = false -> parse_of fc (a ++ c :: b) = parse_of fc a) ->
+  parse_of fc [] = None ->
+  numch sep = false -> numch plus = true ->
+  forall n cs line t, row_wf cs line ->
+  match spec_row64_n (parse_of fc) sep n line with
+  | Some vs => g_read_row_impl fc garbage sep n (gs (comment_block cs ++ line ++ nl :: t)) = (gs t, inr vs)
+  | None => exists e s', g_read_row_impl fc garbage sep n (gs (comment_block cs ++ line ++ nl :: t)) = (s', inl e) /\ Tail s' t
+  end.
+Proof. exact generated_chunked_equals_spec64_fixed. Qed.
+Print Assumptions C17_generated_chunked_equals_spec64_fixed.
+
 (* the printer side of (3): the sign rule of float_to_str_vw is print_elem, its default precision is max_digits10 of the
    value's own type (what the hypothesis `parse (to_chars v) = Some (v, ..)` of C17_print_read_roundtrip rests on), the window
    size and the line terminator are the model's *)
